@@ -83,14 +83,42 @@ def return_shapes(prog, fn, stack=(), penv=None):
         return _ret_cache[key]
     if fn.id in stack or len(stack) > 8:
         return {"?"}
+    global _cross_events
+    before = _cross_events
     res = shapes_of(prog, fn, {"c": {"l": 0, "p": []}}, None, stack + (fn.id,), 0, penv)
     if len(stack) == 0:
         _ret_cache[key] = res
+        _ret_imprecise[key] = _cross_events > before
     return res
+
+
+_cross_events = 0
+_ret_imprecise = {}
+
+
+def imprecise(fn, penv=None):
+    """did the last top-level evaluation of fn's return shapes build a tuple as the cross product of two components that each had several
+    shapes (their correlation, if any, is lost: the product over-approximates)"""
+    penv = {k: v for k, v in (penv or {}).items() if v is True or v is False or (isinstance(v, tuple) and v[0] == "variant")}
+    return bool(_ret_imprecise.get((fn.id, tuple(sorted(penv.items(), key=str)))))
+
+
+def rectangle_artifacts(shapes, bad):
+    """the members of `bad` (2-tuples among `shapes`) that a cross product explains: (a, b) with (a, b') and (a', b) among the other shapes"""
+    pairs = {s[1] for s in shapes if isinstance(s, tuple) and s[0] == "t" and len(s[1]) == 2}
+    good = pairs - {x[1] for x in bad if isinstance(x, tuple) and x[0] == "t"}
+    out = []
+    for x in bad:
+        if isinstance(x, tuple) and x[0] == "t" and len(x[1]) == 2:
+            a, b = x[1]
+            if any(g[0] == a for g in good) and any(g[1] == b for g in good):
+                out.append(x)
+    return out
 
 
 def clear_cache():
     _ret_cache.clear()
+    _ret_imprecise.clear()
     _infeasible_cache.clear()
 
 
@@ -384,6 +412,9 @@ def shapes_of(prog, body, op, site=None, stack=(), depth=0, penv=None):
                         combos += sub
                     combos = combos[:MAXS]
                 else:
+                    if sum(1 for cs in comps if len(cs) > 1) >= 2:
+                        global _cross_events
+                        _cross_events += 1
                     for cs in comps:
                         combos = [c + (x,) for c in combos for x in cs][:MAXS]
                 for c in combos:
